@@ -41,7 +41,7 @@ def run(ctx, chk):
     except Exception as e:       # noqa
         chk.ob('C17.Y1', 'doc:parse', False, 'docs/PROTOCOL.md', 'cannot parse the layout section: %s' % e)
         return
-    hdr = layout(fb, 'shm_header::ShmHeader')
+    hdr = layout(fb, '::ShmHeader')
     rec = layout(fb, 'clock_bound_shm::ClockErrorBound')
     if not hdr or not rec:
         chk.missing('C17.Y1', 'layout of ShmHeader / ClockErrorBound')
@@ -49,30 +49,34 @@ def run(ctx, chk):
     H = hdr['size']
     chk.ob('C17.Y1', 'repr:header-and-record-are-repr-c', hdr.get('repr_c') and rec.get('repr_c'), 'clock-bound-shm/src',
            'ShmHeader repr(C)=%s, ClockErrorBound repr(C)=%s' % (hdr.get('repr_c'), rec.get('repr_c')))
-    rf = {'hdr': {f['name']: f for f in hdr['variants'][0]['fields']}, 'rec': {f['name']: f for f in rec['variants'][0]['fields']}}
+    # documented fields and struct fields are paired by their place in the segment, not by name: a documented
+    # field must have a struct field at its offset with its width, and every struct field must be documented
+    by_off = {}
+    for part, a, base in (('hdr', hdr, 0), ('rec', rec, H)):
+        for f in a['variants'][0]['fields']:
+            by_off[base + f['offset']] = (part, f)
     seen = set()
     for f in d['fields']:
         if f['name'] == 'Padding':
             continue
-        m = DOC_TO_RUST.get(f['name'])
-        if m is None:
-            chk.ob('C17.Y1', 'doc-field:%s:unknown' % f['name'], False, 'docs/PROTOCOL.md', 'documented field %r has no counterpart in the structs' % f['name'])
-            continue
-        part, name = m
-        r = rf[part].get(name)
-        if r is None:
-            chk.ob('C17.Y1', 'field:%s' % name, False, 'clock-bound-shm/src', 'struct field %s is gone' % name)
-            continue
-        seen.add((part, name))
-        off = r['offset'] + (H if part == 'rec' else 0)
+        hit = by_off.get(f['offset'])
         tys = f.get('types') or []
         tsize = sum(docmod.TYPE_SIZE.get(t, 0) for t in tys)
-        chk.ob('C17.Y1', 'field:%s' % name, off == f['offset'] and r['size'] == f['size'] and tsize == f['size'], 'docs/PROTOCOL.md',
-               '%s: doc offset %d width %d (%s); Rust offset %d width %d' % (f['name'], f['offset'], f['size'], ','.join(tys), off, r['size']))
-    for part in rf:
-        for name in rf[part]:
-            chk.ob('C17.Y1', 'struct-field-documented:%s' % name, (part, name) in seen, 'docs/PROTOCOL.md',
-                   'field %s of the %s %s' % (name, 'header' if part == 'hdr' else 'record', 'is documented' if (part, name) in seen else 'IS NOT in PROTOCOL.md'))
+        key = DOC_TO_RUST.get(f['name'], (None, f['name'].lower().replace(' ', '_')))[1]
+        if hit is None:
+            chk.ob('C17.Y1', 'field:%s' % key, False, 'docs/PROTOCOL.md',
+                   'documented field %r at offset %d (width %d) has no struct field at that offset; struct fields start at %s' % (
+                       f['name'], f['offset'], f['size'], sorted(by_off)))
+            continue
+        part, r = hit
+        seen.add((part, r['name']))
+        chk.ob('C17.Y1', 'field:%s' % key, r['size'] == f['size'] and tsize == f['size'], 'docs/PROTOCOL.md',
+               '%s: doc offset %d width %d (%s); Rust field %s at offset %d width %d' % (f['name'], f['offset'], f['size'], ','.join(tys), r['name'], f['offset'], r['size']))
+    for off in sorted(by_off):
+        part, r = by_off[off]
+        chk.ob('C17.Y1', 'struct-field-documented:@%d' % off, (part, r['name']) in seen, 'docs/PROTOCOL.md',
+               'field %s of the %s (segment offset %d) %s' % (r['name'], 'header' if part == 'hdr' else 'record', off,
+                                                              'is documented' if (part, r['name']) in seen else 'IS NOT in PROTOCOL.md'))
     chk.ob('C17.Y1', 'total-size', d['total'] == H + rec['size'] + (8 - (H + rec['size']) % 8) % 8, 'docs/PROTOCOL.md',
            'documented total %d bytes; header %d + record %d rounded to 8 = %d' % (d['total'], H, rec['size'], H + rec['size'] + (8 - (H + rec['size']) % 8) % 8))
     # record pointee offset used by both sides = header size
@@ -85,7 +89,7 @@ def run(ctx, chk):
     else:
         chk.missing('C17.Y2', 'ClockStatus')
     # ---- Y7 / Y8
-    magic = fb.const('shm_header::SHM_MAGIC')
+    magic = fb.const('::SHM_MAGIC')
     if magic and 'bytes' in magic and d['magic']:
         raw = bytes.fromhex(magic['bytes'])
         words = [int.from_bytes(raw[i:i + 4], 'little') for i in (0, 4)]
